@@ -1,34 +1,46 @@
 package props
 
 import (
+	"fmt"
 	"testing"
 	"time"
-	"fmt"
 
 	"verif/harness/chain"
 )
 
 func TestSmoke(t *testing.T) {
 	w := chain.World{GenesisTime: 1700000000, NumVals: 2, BaseFee: "1000000000", MinGasPrice: "0", MaxGas: 40000000,
-		Accounts: []chain.GenAccount{{Key: 0, Coins: map[string]string{chain.Denom: "1000000000000000000000"}}, {Key: 1, Coins: map[string]string{chain.Denom: "1000000000000000000000"}}},
+		Accounts:    []chain.GenAccount{{Key: 0, Coins: map[string]string{chain.Denom: "1000000000000000000000"}}, {Key: 1, Coins: map[string]string{chain.Denom: "1000000000000000000000"}}},
 		Erc20Native: true, StakingCpc: true,
 	}
 	t0 := time.Now()
 	c, err := chain.NewStarted(w, chain.NodeOpts{})
-	if err != nil { t.Fatal(err) }
+	if err != nil {
+		t.Fatal(err)
+	}
 	defer c.Close()
 	fmt.Println("start", time.Since(t0))
 	etx := chain.EthTx{From: 0, Type: 2, Nonce: 0, Gas: 21000, FeeCap: "2000000000", TipCap: "1", To: chain.K(1).Addr.Hex(), Value: "5"}
 	bz, _, err := etx.Build(c.TxCfg)
-	if err != nil { t.Fatal(err) }
-	c.SetObserver(func(o chain.Obs) { fmt.Println("obs", o.Kind, o.TxIndex, c.App.BankKeeper.GetBalance(o.Ctx, chain.K(1).Acc(), chain.Denom)) })
+	if err != nil {
+		t.Fatal(err)
+	}
+	c.SetObserver(func(o chain.Obs) {
+		fmt.Println("obs", o.Kind, o.TxIndex, c.App.BankKeeper.GetBalance(o.Ctx, chain.K(1).Acc(), chain.Denom))
+	})
 	t0 = time.Now()
 	res, err := c.RunBlock(chain.Block{Dt: 5, Txs: [][]byte{bz}})
-	if err != nil { t.Fatal(err) }
+	if err != nil {
+		t.Fatal(err)
+	}
 	fmt.Println("block", time.Since(t0))
-	for _, r := range res.TxResults { fmt.Println(r.Code, r.Log, r.GasUsed, r.GasWanted, len(r.Events)) }
+	for _, r := range res.TxResults {
+		fmt.Println(r.Code, r.Log, r.GasUsed, r.GasWanted, len(r.Events))
+	}
 	d := c.Dump(c.CommittedCtx())
 	n := 0
-	for _, kvs := range d { n += len(kvs) }
+	for _, kvs := range d {
+		n += len(kvs)
+	}
 	fmt.Println("dump keys", n, len(c.Panics))
 }
